@@ -325,9 +325,12 @@ bool Plan::DyndepsLoaded(DependencyScan* scan,
                          const std::vector<Node*>& dyndep_nodes,
                          const std::unordered_map<Edge*, Dyndeps>& dyndep_edges,
                          std::string* err) {
+  // Edges encountered while re-planning; checked for readiness below.
+  std::set<Edge*> dyndep_walk;
+
   // Recompute the dirty state of all our direct and indirect dependents now
   // that our dyndep information has been loaded.
-  if (!RefreshDyndepDependents(scan, dyndep_nodes, err))
+  if (!RefreshDyndepDependents(scan, dyndep_nodes, &dyndep_walk, err))
     return false;
 
   // We loaded dyndep information for those out_edges of the dyndep nodes that
@@ -358,7 +361,6 @@ bool Plan::DyndepsLoaded(DependencyScan* scan,
   }
 
   // Walk dyndep-discovered portion of the graph to add it to the build plan.
-  std::set<Edge*> dyndep_walk;
   for (std::vector<std::unordered_map<Edge*, Dyndeps>::const_iterator>::iterator
            oei = dyndep_roots.begin();
        oei != dyndep_roots.end(); ++oei) {
@@ -398,6 +400,7 @@ bool Plan::DyndepsLoaded(DependencyScan* scan,
 
 bool Plan::RefreshDyndepDependents(DependencyScan* scan,
                                    const std::vector<Node*>& dyndep_nodes,
+                                   std::set<Edge*>* dyndep_walk,
                                    string* err) {
   // Collect the transitive closure of dependents and mark their edges
   // as not yet visited by RecomputeDirty.
@@ -422,9 +425,13 @@ bool Plan::RefreshDyndepDependents(DependencyScan* scan,
     for (std::vector<Node*>::iterator v = validation_nodes.begin();
          v != validation_nodes.end(); ++v) {
       if (Edge* in_edge = (*v)->in_edge()) {
-        if (!in_edge->outputs_ready() &&
-            !AddTarget(*v, err)) {
-          return false;
+        // Record the edges this adds to the plan in |dyndep_walk|: the build
+        // is already running, so nobody else will check whether they are
+        // ready to be scheduled.
+        if (!in_edge->outputs_ready()) {
+          targets_.push_back(*v);
+          if (!AddSubTarget(*v, NULL, err, dyndep_walk) && !err->empty())
+            return false;
         }
       }
     }
